@@ -209,6 +209,7 @@ func residentBytes() int64 {
 	n, _ := strconv.ParseInt(f[1], 10, 64)
 	return n * int64(os.Getpagesize())
 }
+
 var caseLabel atomic.Value
 
 // RunCase runs one case of a family under recover and the hang watchdog.
